@@ -12,7 +12,7 @@
    every set (hypothesis [valid] only where the u16 complement is involved); none
    is proved by enumerating sets. *)
 From Coq Require Import NArith List Bool Sorted.
-From AV Require Import Generated.Style Spec.Algebra Model.Base Model.Style Proofs.Style.
+From AV Require Import Generated.Style Spec.Algebra Model.Base Model.Style Generated.StyleFn Proofs.Style Proofs.StyleGen.
 Import ListNotations.
 Local Open Scope N_scope.
 
@@ -358,3 +358,63 @@ Proof. exact is_bright_is_spec. Qed.
 Theorem c13_hue_and_brightness_determine : forall a b,
   hue (ansi_disc a) = hue (ansi_disc b) -> ansi_is_bright a = ansi_is_bright b -> a = b.
 Proof. exact hue_bright_inj. Qed.
+
+(* ---- the tie by translation ------------------------------------------------------------- *)
+
+(* Generated/StyleFn.v is written on every run by tools/gen_fn_style.py (tools/rs2v) from the Rust
+   sources of effect.rs (Effects::{new, is_plain, contains, insert, remove, clear, set, iter,
+   index_iter, render}, the operator impls, both `Iterator::next`, `Debug::fmt`), color.rs
+   (AnsiColor::{bright, is_bright}, Ansi256Color::{index, into_ansi, from_ansi}) and style.rs (every
+   builder, convenience method, getter, is_plain, the operator impls with Effects, From<Effects>,
+   PartialEq<Effects>).  Each translated function computes what the hand model -- the subject of
+   every theorem above -- computes; none of them panics.  Nothing in this area is hand-pinned. *)
+Theorem c13_translated_effects_are_model :
+  g_eff_new = e_new /\
+  (forall e, g_eff_is_plain e = e_is_plain e /\ g_eff_clear e = e_clear e /\ g_eff_render e = e /\
+             g_eff_iter_items e = e_iter e /\ g_eff_index_iter_items e = e_index_iter e /\ g_eff_debug e = e_debug e) /\
+  (forall a b, g_eff_contains a b = e_contains a b /\ g_eff_insert a b = e_insert a b /\ g_eff_remove a b = e_remove a b /\
+               g_eff_bitor a b = e_bitor a b /\ g_eff_bitor_assign a b = e_bitor_assign a b /\
+               g_eff_sub a b = e_sub a b /\ g_eff_sub_assign a b = e_sub_assign a b) /\
+  (forall a b en, g_eff_set a b en = e_set a b en).
+Proof. exact translated_effects_are_model. Qed.
+
+(* one call of the translated `next`, [n] table positions before the end: the next member (the
+   singleton / the index) and the advanced iterator, or None at the end *)
+Theorem c13_translated_iter_next : forall e n i, i + N.of_nat n = 12 ->
+  g_eff_iter_next (mkEffIter i e) = e_next (fun _ effect => effect) e n i /\
+  g_eff_index_iter_next (mkEffIter i e) = e_next (fun index _ => index) e n i.
+Proof. exact (fun e n i H => conj (g_eff_iter_next_eq e n i H) (g_eff_index_iter_next_eq e n i H)). Qed.
+
+(* <Effects as Debug>::fmt on a formatter that holds [f]: appends the text, answers Ok(()) *)
+Theorem c13_translated_debug_fmt : forall e f,
+  g_eff_debug_fmt e f = option_map (fun t => (f ++ t, inl tt)) (e_debug e).
+Proof. exact g_eff_debug_fmt_eq. Qed.
+
+Theorem c13_translated_colors_are_model :
+  (forall c yes, g_ansi_bright c yes = Some (ansi_bright c yes)) /\
+  (forall c, g_ansi_is_bright c = Some (ansi_is_bright c)) /\
+  (forall n, g_a256_into_ansi n = Some (ansi256_into_ansi n)) /\
+  (forall c, g_a256_from_ansi c = Some (ansi256_from_ansi c)).
+Proof. exact translated_colors_are_model. Qed.
+
+Theorem c13_translated_style_is_model :
+  g_st_new = st_new /\
+  (forall s v, g_st_fg_color s v = st_fg_color s v /\ g_st_bg_color s v = st_bg_color s v /\
+               g_st_underline_color s v = st_underline_color s v) /\
+  (forall s e, g_st_effects s e = st_effects s e /\ g_st_bitor s e = st_bitor s e /\ g_st_bitor_assign s e = st_bitor_assign s e /\
+               g_st_sub s e = st_sub s e /\ g_st_sub_assign s e = st_sub_assign s e /\ g_st_eq_effects s e = st_eq_effects s e) /\
+  (forall m s, g_st_conv m s = st_conv m s) /\
+  (forall s, g_st_get_fg_color s = st_get_fg_color s /\ g_st_get_bg_color s = st_get_bg_color s /\
+             g_st_get_underline_color s = st_get_underline_color s /\ g_st_get_effects s = st_get_effects s /\
+             g_st_is_plain s = st_is_plain s) /\
+  (forall e, g_st_from_effects e = st_from_effects e).
+Proof. exact translated_style_is_model. Qed.
+
+(* hence the translated code obeys the laws above; two of them spelled out on the translated functions:
+   the translated iterator yields exactly the members, in declaration order, and the translated Debug
+   prints their names *)
+Theorem c13_translated_iter_members : forall e, g_eff_iter_items e = Some (map singleton (members e)).
+Proof. exact (fun e => eq_trans (g_eff_iter_eq e) (iter_members e)). Qed.
+
+Theorem c13_translated_debug_names_members : forall e, g_eff_debug e = Some (sp_debug e).
+Proof. exact (fun e => eq_trans (g_eff_debug_eq e) (debug_is_spec e)). Qed.
